@@ -657,6 +657,29 @@ Theorem C05_located_through_lattice_linked :
 Proof. exact C05.LinkC06.located_through_lattice. Qed.
 Print Assumptions C05_located_through_lattice_linked.
 
+(* any number of lattice cells: TRCL loop -> LAT loop (develop each lattice cell, delete it) ->
+   FILL loop -> inlining.  Each development leaves a table that is again "ready" (fresh counters,
+   empty cache, no CellRef, no provenance), so the FILL loop and inlining achieve their Outcome on
+   the developed table [sd] *)
+Theorem C05_pipeline_with_lattices_linked :
+  forall (surf : Type) (teqb : list Rdefinitions.R -> list Rdefinitions.R -> bool)
+         (tr_surf : list Rdefinitions.R -> surf -> surf)
+         (inv : list Rdefinitions.R -> @C06.Model.vec Rdefinitions.R -> @C06.Model.vec Rdefinitions.R)
+         (sense : surf -> @C06.Model.vec Rdefinitions.R -> bool),
+  sense_law tr_surf inv sense -> key_law (@C06.Model.is_nil Rdefinitions.R) teqb inv ->
+  forall fuel cf ifd ifg num den (s0 s1 sd s3 : state (list Rdefinitions.R) surf) lats rs cells4,
+  fresh_ok _ surf s0 -> s_cache s0 = [] -> NoDup (map fst (s_cells s0)) ->
+  all_ref_free _ surf s0 -> C05.LinkC06.no_orig surf s0 ->
+  trcl_phase _ surf (@C06.Model.is_nil _) teqb tr_surf fuel (map fst (s_cells s0)) s0 = Ok s1 ->
+  C05.LinkC06.lat_phase surf teqb tr_surf fuel lats s1 = Ok sd ->
+  fill_phase _ surf (@C06.Model.is_nil _) teqb tr_surf fuel cf ifd ifg sd = Ok (rs, s3) ->
+  inline_cells _ fuel num den (s_cells s3) = Ok cells4 ->
+  Forall2 (Outcome _ surf _ (@C06.Model.is_nil _) inv sense sd (by_universe (s_cells sd))
+                   (set_cells _ surf s3 cells4))
+          (fill_keys (s_cells sd)) rs.
+Proof. exact C05.LinkC06.pipeline_with_lattices. Qed.
+Print Assumptions C05_pipeline_with_lattices_linked.
+
 (* non-vacuity of the two lattice theorems: a concrete table (container 1 filled with universe 1 =
    the lattice cell 5), one element with a translation, a degenerate surface instance that obeys
    both laws; the chain runs: develop_state returns the element cell 6, the FILL loop the cell 7
